@@ -701,12 +701,15 @@ func (cs *ContractSet) parseContractFile(pkgPath, file string) {
 			default:
 				errf(ln, "unknown loop clause %q", kind)
 			}
-		case "trusted", "safety", "nopanic", "overflow", "pure", "strings", "atomic-once", "replay", "note", "inline", "nomodel", "constructor", "requires-lock", "holds-lock", "frame", "uses", "refines", "may-panic", "helper", "functional":
+		case "trusted", "safety", "nopanic", "overflow", "pure", "strings", "atomic-once", "replay", "note", "inline", "nomodel", "constructor", "requires-lock", "holds-lock", "frame", "uses", "refines", "may-panic", "helper", "functional", "pureparam", "pureresult":
 			if cur != nil {
 				if rest == "" {
 					rest = "yes"
 				}
 				cur.Flags[word] = rest
+				if word == "pureparam" {
+					cs.RawScan = append(cs.RawScan, "pureparam "+cur.Key+" ("+rest+"): calls of this function-typed parameter are modelled as fnapp(value, args)")
+				}
 				if word == "trusted" || word == "pure" {
 					cs.RawScan = append(cs.RawScan, word+" "+cur.Kind+" "+cur.Key+" ("+rest+")")
 				}
